@@ -10,7 +10,6 @@ import (
 	"fmt"
 	"strings"
 	"sync"
-	"sync/atomic"
 	"time"
 
 	bs "github.com/danthegoodman1/bloomsearch"
@@ -949,19 +948,24 @@ func trickleAgainstStalledStore(c *ctx, r Rng, i int) {
 		// slower than the actor's 100 ms idle ticker, so that every flush is started by the ticker (not by the
 		// next request noticing the buffer's age), and well more batches than the bound
 		// Paced by the engine, not by the clock: after every accepted batch the producer waits until the actor has
-		// asked for a flush of it (hook event "enqueue_intent"; in the unchanged engine that flush was started by
-		// the ticker, the producer being idle), at most 1.2 s. Three refusals in a row mean the backpressure has
+		// asked for a flush of that very batch (hook event "enqueue_intent" naming its done channel; in the
+		// unchanged engine that flush was started by the ticker, the producer being idle), at most 1.2 s. Three refusals in a row mean the backpressure has
 		// been established and the scenario ends.
 		n = 26
-		var intents atomic.Int64
+		var imu sync.Mutex
+		flushAsked := map[uintptr]bool{} // done channels whose batch the actor has asked a flush for
 		bs.VerifSetHook(func(ev bs.VerifEvent) {
 			if ev.Kind == "enqueue_intent" {
-				intents.Add(1)
+				imu.Lock()
+				for _, a := range ev.Chans {
+					flushAsked[a] = true
+				}
+				imu.Unlock()
 			}
 		})
 		refusedInARow := 0
 		for k := 0; k < n && refusedInARow < 3; k++ {
-			before, was := intents.Load(), accepted
+			was := accepted
 			send([]map[string]any{{"_id": k}}, 40*time.Millisecond)
 			if accepted == was {
 				refusedInARow++
@@ -969,10 +973,16 @@ func trickleAgainstStalledStore(c *ctx, r Rng, i int) {
 				continue
 			}
 			refusedInARow = 0
-			for w := 0; w < 120 && intents.Load() == before; w++ {
+			mine := bs.VerifChanID(dones[len(dones)-1])
+			for w := 0; w < 120; w++ {
+				imu.Lock()
+				ok := flushAsked[mine]
+				imu.Unlock()
+				if ok {
+					break
+				}
 				time.Sleep(10 * time.Millisecond)
 			}
-			time.Sleep(20 * time.Millisecond)
 		}
 		uninstallHook()
 	} else {
